@@ -11,7 +11,7 @@ ID = "C14"
 READY = True
 LEVEL = "exploration"
 WORKERS = {"quick": 4, "thorough": 16}
-BUDGET = {"quick": 60, "thorough": 300}
+BUDGET = {"quick": 150, "thorough": 300}
 MIN_NONTRIVIAL = {"quick": 600, "thorough": 4000}
 REQUIRED_HOOKS = ["evaluate:I", "evaluate:C", "host-call", "override-isolation", "shared-ast", "unbound", "random-nesting"]
 RULE = (
